@@ -20,7 +20,7 @@ Local Open Scope string_scope.
 
 (* the words of the documented syntax: "yes | no", the time-out units "s, m or
    h", the regress options, the step options, the list braces *)
-Definition doc_tokens : list tokrow := [
+Definition doc_tokens : list tokrow := Eval vm_compute in [
   mk_tokrow T_LBRACE (bs "{") None;
   mk_tokrow T_RBRACE (bs "}") None;
   mk_tokrow T_COMMAND (bs "command") (Some CANVAS);
@@ -41,7 +41,7 @@ Definition doc_tokens : list tokrow := [
 Definition doc_tables (m : mode) : tables :=
   let G := tables_of m in
   mk_tables m doc_tokens (doc_table m) (t_steps G) (t_argv G) (t_regress_script G) (t_canvas_end G)
-            doc_rdomain_first (doc_rdomain_last + 1) true (t_execdir_default G) (t_depth_limit G).
+            doc_rdomain_first (doc_rdomain_last + 1) true (t_execdir_default G) (t_depth_limit G) true.
 
 (* the token table of the code is the documented one (rows without a literal never match) *)
 Lemma tokens_match_docs :
